@@ -3,6 +3,7 @@
 package config
 
 import (
+	"errors"
 	"github.com/gethiox/HIDI/internal/verifrt"
 	"github.com/holoplot/go-evdev"
 )
@@ -55,10 +56,10 @@ var keyValues = []string{"60", "c#3", "60,3", "0", "127", "128", "c9", "60,16", 
 // buildDecoded produces an arbitrary bounded value of the decoded configuration struct.
 func buildDecoded() *TOMLDeviceConfig {
 	c := &TOMLDeviceConfig{}
-	nm := verifrt.Param("NM", 1) // mappings
-	nk := verifrt.Param("NK", 1) // keys per key map
-	na := verifrt.Param("NA", 1) // axes per analog map
-	nx := verifrt.Param("NX", 1) // actions, exit keys
+	nm := verifrt.Param("NM", 1)       // mappings
+	nk := verifrt.Param("NK", 1)       // keys per key map
+	na := verifrt.Param("NA", 1)       // axes per analog map
+	nx := verifrt.Param("NX", 1)       // actions, exit keys
 	parts := verifrt.Param("PARTS", 7) // 1 key maps, 2 analog maps, 4 actions and exit sequence
 	c.CollisionMode = pickStr("mode", modeNames...)
 	c.Identifier.Bus, c.Identifier.Vendor = verifrt.U16("id.bus"), verifrt.U16("id.vendor")
@@ -325,12 +326,12 @@ func checkFaithful(dec *TOMLDeviceConfig, cfg *Config, err error) {
 	verifrt.Assert(len(cfg.ExitSequence) == len(dec.ExitSequence), "C10: exit sequence has the keys of the file, in order")
 	verifrt.Assert(len(cfg.KeyMappings) == len(dec.KeyMappings), "C10: one mapping per mapping of the file, in order")
 	for name, act := range dec.ActionMapping {
-		code, e := TomlKeyToEvCode(name, evdev.KEYFromString)
+		code, e := refEvCode(name, evdev.KEYFromString)
 		verifrt.Assert(e == nil, "C10: accepted files have only known key names")
 		// the same key may be named twice (by name and by hex code): then either action is a faithful answer
 		other := false
 		for n2, a2 := range dec.ActionMapping {
-			c2, e2 := TomlKeyToEvCode(n2, evdev.KEYFromString)
+			c2, e2 := refEvCode(n2, evdev.KEYFromString)
 			if n2 != name && e2 == nil && c2 == code && a2 != act {
 				other = true
 			}
@@ -347,7 +348,7 @@ func checkFaithful(dec *TOMLDeviceConfig, cfg *Config, err error) {
 		for _, am := range m.AnalogMapping {
 			verifrt.Assert(km.DefaultDeadzone[am.SubHandler] == am.DefaultDeadzone, "C10: per-handler default deadzone as in the file")
 			for name, e := range am.Map {
-				code, e2 := TomlKeyToEvCode(name, evdev.ABSFromString)
+				code, e2 := refEvCode(name, evdev.ABSFromString)
 				verifrt.Assert(e2 == nil, "C10: accepted files have only known axis names")
 				a, ok := km.Analog[am.SubHandler][code]
 				verifrt.Assert(ok, "C10: every axis of the file is in the configuration")
@@ -358,7 +359,7 @@ func checkFaithful(dec *TOMLDeviceConfig, cfg *Config, err error) {
 				// written once are compared field by field
 				twice := false
 				for n2 := range am.Map {
-					c2, e3 := TomlKeyToEvCode(n2, evdev.ABSFromString)
+					c2, e3 := refEvCode(n2, evdev.ABSFromString)
 					if n2 != name && e3 == nil && c2 == code {
 						twice = true
 					}
@@ -386,7 +387,7 @@ func checkFaithful(dec *TOMLDeviceConfig, cfg *Config, err error) {
 		}
 		for _, sub := range m.KeyMapping {
 			for name, val := range sub.Map {
-				code, e2 := TomlKeyToEvCode(name, evdev.KEYFromString)
+				code, e2 := refEvCode(name, evdev.KEYFromString)
 				verifrt.Assert(e2 == nil, "C10: accepted files have only known key names")
 				k, ok := km.Midi[sub.SubHandler][code]
 				verifrt.Assert(ok && k.Note <= 127 && k.ChannelOffset <= 15, "C10: every key of the file is in the configuration, in range")
@@ -394,7 +395,7 @@ func checkFaithful(dec *TOMLDeviceConfig, cfg *Config, err error) {
 				// the same key may be written twice (by name and by hex code): then either entry is a faithful answer
 				other := false
 				for n2, v2 := range sub.Map {
-					c2, e3 := TomlKeyToEvCode(n2, evdev.KEYFromString)
+					c2, e3 := refEvCode(n2, evdev.KEYFromString)
 					if n2 != name && e3 == nil && c2 == code {
 						ok2, n2v, o2v := refKeyValue(v2)
 						other = other || (ok2 && k.Note == n2v && k.ChannelOffset == o2v)
@@ -464,3 +465,34 @@ func refKeyValue(s string) (ok bool, note, off uint8) {
 	}
 	return false, 0, 0
 }
+
+// refEvCode: independent reading of a key / axis name of a configuration file: "x" followed by 1-4 hexadecimal
+// digits is the code itself, anything else must be a name of the table (the returned error is non-nil otherwise).
+func refEvCode(name string, table map[string]evdev.EvCode) (evdev.EvCode, error) {
+	if len(name) > 0 && name[0] == 'x' {
+		if len(name) < 2 || len(name) > 5 {
+			return 0, errRefName
+		}
+		v := 0
+		for i := 1; i < len(name); i++ {
+			c := name[i]
+			switch {
+			case c >= '0' && c <= '9':
+				v = v*16 + int(c-'0')
+			case c >= 'a' && c <= 'f':
+				v = v*16 + int(c-'a') + 10
+			case c >= 'A' && c <= 'F':
+				v = v*16 + int(c-'A') + 10
+			default:
+				return 0, errRefName
+			}
+		}
+		return evdev.EvCode(v), nil
+	}
+	if code, ok := table[name]; ok {
+		return code, nil
+	}
+	return 0, errRefName
+}
+
+var errRefName = errors.New("not a key or axis name")
